@@ -341,6 +341,34 @@ def extract_binio(src, params):
     params["readChecked"] = (unchecked == 0)
 
 
+def extract_archive(src, params):
+    """Which protections the archive reader has (C27)."""
+    m = re.search(r"pub\s+fn\s+open\s*\(", src)
+    need(m, "archive: fn open not found")
+    body = block_at(src, m.end())
+    need("ArchiveMeta::read(" in body and "FILE_MAGIC" in body, "archive: open shape changed")
+    params["checkIndex"] = bool(re.search(r"\.check_index\(\)\?", body))
+    if params["checkIndex"]:
+        m = re.search(r"fn\s+check_index\s*\(", src)
+        need(m, "archive: check_index not found")
+        cb = block_at(src, m.end())
+        need("bucket_count > 0" in cb and re.search(r"end\s*<=\s*self\.file\.size", cb),
+             "archive: check_index shape changed")
+    walkers = {}
+    for name in ("find", "verify"):
+        m = re.search(r"fn\s+" + name + r"\s*\(", src)
+        need(m, f"archive: fn {name} not found")
+        walkers[name] = "max_object_count()" in block_at(src, m.end())
+    m = re.search(r"impl<'a,\s*Meta>\s*ObjectsIter<'a,\s*Meta>\s*\{", src)
+    need(m, "archive: ObjectsIter impl not found")
+    walkers["objects"] = "max_object_count()" in block_at(src, m.end() - 1)
+    params["boundWalks"] = all(walkers.values())
+    if params["boundWalks"]:
+        m = re.search(r"fn\s+max_object_count\s*\(&self\)\s*->\s*u64\s*\{\s*self\.file\.size\s*/\s*ObjectHeader::SIZE\s*\+\s*1\s*\}", src)
+        need(m, "archive: max_object_count shape changed")
+    need(re.search(r"const\s+DEFAULT_BUCKET_COUNT\s*:\s*usize\s*=\s*1024\s*;", src), "archive: bucket count changed")
+
+
 def lean_item(item):
     if item[0] == "const":
         return f".const {item[1]}"
@@ -359,6 +387,8 @@ def main():
         layouts += extract_store(store, params)
         layouts += extract_state(load("src/collector/rrdp/archive.rs"))
         extract_binio(load("src/utils/binio.rs"), params)
+        aparams = {}
+        extract_archive(load("src/utils/archive.rs"), aparams)
     except Shape as e:
         print(f"layouts.py: SOURCE SHAPE CHANGED: {e}")
         return 1
@@ -373,6 +403,7 @@ def main():
         return 1
     out = []
     out.append("import RoutinatorModel.Model.Records")
+    out.append("import RoutinatorModel.Model.ArchiveRead")
     out.append("/-! GENERATED by extract/layouts.py from src/store.rs, src/collector/rrdp/archive.rs,")
     out.append("src/utils/binio.rs — do not edit. -/")
     out.append("namespace RoutinatorModel.Codec.Generated")
@@ -384,6 +415,10 @@ def main():
             out.append(f"  {k} := {'true' if v else 'false'}")
         else:
             out.append(f"  {k} := {lean_int(v)}")
+    out.append("")
+    out.append("def archiveParams : ArchiveParams where")
+    for k in ("checkIndex", "boundWalks"):
+        out.append(f"  {k} := {'true' if aparams[k] else 'false'}")
     out.append("")
     for ident, name, w, r in layouts:
         out.append(f"def {ident} : RecLayout where")
@@ -402,7 +437,7 @@ def main():
     if old != text:
         with open(OUT, "w", encoding="utf8") as f:
             f.write(text)
-    print(f"layouts.py: {len(layouts)} layouts, params {params}")
+    print(f"layouts.py: {len(layouts)} layouts, params {params}, archive {aparams}")
     return 0
 
 
